@@ -327,7 +327,21 @@ impl Monitor for C12 {
                 Self::check_common(&d, 64, "decompress (frame around a garbage container)", &format!("container {:02x?}", c), &c, ctx);
             }
         }
-        let (bytes, label, dense) = match k % 10 {
+        let (bytes, label, dense) = match if k % 50 == 7 { 99 } else { k % 10 } {
+            99 => {
+                // expanded form of several MiB that zstd shrinks by a factor of thousands
+                let n = (1 << 20) + r.usize_below(5 << 20);
+                let b = if r.chance(1, 2) { 0u8 } else { r.byte() };
+                let p = vec![b; n];
+                if r.chance(1, 2) {
+                    (p, format!("{} equal bytes, no embedded stream", n), false)
+                } else {
+                    let d = crate::comp::zlib_raw(&p, 6, 0, 15, 8, &[]).unwrap();
+                    let mut f = wrap::junk_clean(&mut r, 10);
+                    f.extend(wrap::zlib_wrap(&d, &p, 0x9C));
+                    (f, format!("zlib member of {} equal bytes", n), false)
+                }
+            }
             0 => {
                 let g = wrap::edge_case(k / 10, &mut r);
                 (g.bytes, g.recipe, true)
